@@ -98,6 +98,15 @@ fn parse_tag(t: &str) -> Option<(u32, u32, u32, u32)> {
     Some((v[1].parse().ok()?, v[2].parse().ok()?, v[3].parse().ok()?, v[4].parse().ok()?))
 }
 
+/// stream 4, topic 9 (different ids, so that a swapped pair cannot go unnoticed)
+fn sid() -> Identifier {
+    Identifier::numeric(4).unwrap()
+}
+fn tid() -> Identifier {
+    Identifier::numeric(9).unwrap()
+}
+
+#[allow(dead_code)]
 fn one() -> Identifier {
     Identifier::numeric(1).unwrap()
 }
@@ -143,8 +152,8 @@ async fn run_history(hseed: u64, cache: CacheMode) -> R<Outcome> {
 
 async fn run_inner(hseed: u64, rng: &mut Rng, cfg: &StorageCfg, inst: &ServerInstance, ctl: &RawClient) -> R<Outcome> {
     timed("login", ctl.login_user("iggy", "iggy")).await?.map_err(|e| Stop::Inconclusive(e.to_string()))?;
-    timed("create_stream", ctl.create_stream("cstream", Some(1))).await?.map_err(|e| Stop::Inconclusive(e.to_string()))?;
-    timed("create_topic", ctl.create_topic(&one(), "ctopic", 1, CompressionAlgorithm::None, None, Some(1), IggyExpiry::NeverExpire, MaxTopicSize::Unlimited))
+    timed("create_stream", ctl.create_stream("cstream", Some(4))).await?.map_err(|e| Stop::Inconclusive(e.to_string()))?;
+    timed("create_topic", ctl.create_topic(&sid(), "ctopic", 1, CompressionAlgorithm::None, None, Some(9), IggyExpiry::NeverExpire, MaxTopicSize::Unlimited))
         .await?
         .map_err(|e| Stop::Inconclusive(e.to_string()))?;
     let producers = rng.range(2, 6) as u32;
@@ -170,7 +179,7 @@ async fn run_inner(hseed: u64, rng: &mut Rng, cfg: &StorageCfg, inst: &ServerIns
                     msgs.push(Message::new(Some(((hseed as u128) << 64) | ((p as u128) << 40) | ((b as u128) << 16) | (i as u128 + 1)), Bytes::from(pl), None));
                 }
                 let call = t0.elapsed().as_nanos();
-                let res = tokio::time::timeout(Duration::from_secs(30), c.send_messages(&one(), &one(), &Partitioning::partition_id(1), &mut msgs)).await;
+                let res = tokio::time::timeout(Duration::from_secs(30), c.send_messages(&sid(), &tid(), &Partitioning::partition_id(1), &mut msgs)).await;
                 let ret = t0.elapsed().as_nanos();
                 let ok = matches!(res, Ok(Ok(())));
                 evs.push(SendEv { producer: p, batch: b, n, call, ret, ok });
@@ -219,7 +228,7 @@ async fn run_inner(hseed: u64, rng: &mut Rng, cfg: &StorageCfg, inst: &ServerIns
                     }
                 };
                 let call = t0.elapsed().as_nanos();
-                let res = tokio::time::timeout(Duration::from_secs(30), c.poll_messages(&one(), &one(), Some(1), &who, &strat, count, false)).await;
+                let res = tokio::time::timeout(Duration::from_secs(30), c.poll_messages(&sid(), &tid(), Some(1), &who, &strat, count, false)).await;
                 let ret = t0.elapsed().as_nanos();
                 match res {
                     Ok(Ok(pm)) => {
@@ -256,7 +265,7 @@ async fn run_inner(hseed: u64, rng: &mut Rng, cfg: &StorageCfg, inst: &ServerIns
             n += 1;
             match jr.below(3) {
                 0 => {
-                    let _ = ctl.flush_unsaved_buffer(&one(), &one(), 1, jr.chance(1, 2)).await;
+                    let _ = ctl.flush_unsaved_buffer(&sid(), &tid(), 1, jr.chance(1, 2)).await;
                 }
                 1 => {
                     let _ = inst.save_tick(false).await;
@@ -294,7 +303,7 @@ async fn run_inner(hseed: u64, rng: &mut Rng, cfg: &StorageCfg, inst: &ServerIns
         let mut off = 0u64;
         let mut bad = false;
         loop {
-            let r = timed("scan", ctl.poll_messages(&one(), &one(), Some(1), &who, &PollingStrategy::offset(off), 200, false)).await?;
+            let r = timed("scan", ctl.poll_messages(&sid(), &tid(), Some(1), &who, &PollingStrategy::offset(off), 200, false)).await?;
             let pm = match r {
                 Ok(p) => p,
                 Err(e) => return Err(Stop::Inconclusive(format!("final scan: {e}"))),
@@ -320,7 +329,7 @@ async fn run_inner(hseed: u64, rng: &mut Rng, cfg: &StorageCfg, inst: &ServerIns
         }
         tokio::time::sleep(Duration::from_millis(2)).await;
     }
-    let segments = match timed("get_topic", ctl.get_topic(&one(), &one())).await? {
+    let segments = match timed("get_topic", ctl.get_topic(&sid(), &tid())).await? {
         Ok(Some(t)) => t.partitions.first().map(|p| p.segments_count).unwrap_or(0),
         _ => 0,
     };
